@@ -117,8 +117,10 @@ def run_large(ctx, only=None):
                 for dtype in (("float64",) if ctx.quick else ("float64", "float32")):
                     # quick: 2^16+1 items (> 2^14 and > 2^16, = 4 * 2^14 + 1) for EVERY entry point with first / last / random item and the
                     # model on the last item; 2^14+1 items in two shapes with split-consistency for a quarter of the entry points each
-                    if ctx.quick and n == 16385 and (fi + gi) % 4 != si:
+                    if ctx.quick and n == 16385 and not (si == 1 and (fi + gi) % 4 == 1) and not (si == 0 and (fi + gi) % 8 == 0):
                         continue
+                    if ctx.quick and n == 65537 and H5_cheap(g, name) and (fi + gi) % 4:
+                        continue                      # quick: every heavy entry point and a quarter of the cheap ones at 2^16+1 (thorough: all)
                     split = (not ctx.quick) or n == 16385
                     plans.append((n, shape, dtype, split, False))
             # (28) both sides of the switch-overs of library kernels, float32, points far from the origin
@@ -467,7 +469,7 @@ def run_numpy(ctx, only=None):
     P = U.pp()
     C = _c04()
     for gi, g in enumerate(GROUPS):
-        for dtype in ("float64", "float32"):
+        for dtype in (("float64", "float32") if (not ctx.quick or gi % 2 == 0) else ("float64",)):
             X1, a1, p1 = mixed_inputs(P, g, dtype, 3, gi)
             X2, a2, p2 = mixed_inputs(P, g, dtype, 3, gi + 5)
             for name, fn in reads(P):
